@@ -96,6 +96,30 @@ Proof.
   specialize (IH x Hin). lia.
 Qed.
 
+(* the text length enters the bound additively: term_fuel e t <= (bound for the empty text) + tlen e;
+   leg c01-frag reports the first summand for every exported tree *)
+Lemma tm_fuel_text_additive tl : forall t, (term_fuel_n tl t <= term_fuel_n 0 t + tl)%nat.
+Proof.
+  induction t using node_ind'; cbn [term_fuel_n]; try lia.
+  - fold (tm_fuel_list tl l). fold (tm_fuel_list 0 l).
+    enough (tm_fuel_list tl l <= tm_fuel_list 0 l + tl)%nat by lia.
+    induction H as [|x l Hx Hl IH]; cbn [tm_fuel_list]; [lia|].
+    fold (tm_fuel_list tl l). fold (tm_fuel_list 0 l). lia.
+  - fold (tm_fuel_list tl l). fold (tm_fuel_list 0 l).
+    enough (tm_fuel_list tl l <= tm_fuel_list 0 l + tl)%nat by lia.
+    induction H as [|x l Hx Hl IH]; cbn [tm_fuel_list]; [lia|].
+    fold (tm_fuel_list tl l). fold (tm_fuel_list 0 l). lia.
+  - destruct no as [n|]; cbn [opt_all] in H; lia.
+  - destruct no as [n|]; cbn [opt_all] in H; lia.
+Qed.
+
+Corollary tm_fuel_in_range (e : env) t :
+  Z.of_nat (term_fuel_n 0 t) + tlen e <= INF -> Z.of_nat (term_fuel e t) <= INF.
+Proof.
+  intros H. pose proof (tm_fuel_text_additive (Z.to_nat (tlen e)) t) as A.
+  unfold term_fuel. assert (Z.of_nat (Z.to_nat (tlen e)) = tlen e) by (unfold tlen, zlen; lia). lia.
+Qed.
+
 (* ------------------------------------------------------------------------------------------ *)
 (* old predicate => new predicate                                                              *)
 
